@@ -72,6 +72,7 @@ pub struct Elab<'a> {
     pub self_rename: Option<Ident>,
     pub backparam: Option<(String, String)>, // (field, param) for this fn's impl type
     pub loop_depth_raii: Vec<Vec<String>>,
+    pub cur_key: String,
 }
 
 fn ident(s: &str) -> Ident {
@@ -212,6 +213,7 @@ impl<'a> Elab<'a> {
         let c = self.counters.entry(base.to_string()).or_insert(0);
         let k = format!("{}#{}", base, *c);
         *c += 1;
+        self.cur_key = k.clone();
         k
     }
 
@@ -244,8 +246,9 @@ impl<'a> Elab<'a> {
     }
 
     fn pt(&mut self) -> Option<Stmt> {
-        self.pool.clone().map(|p| {
-            let s: Stmt = parse_quote!(#p.interfere(););
+        let k = self.cur_key.clone();
+        self.pool.clone().map(|_p| {
+            let s: Stmt = parse_quote!(__vx_pt!(#k););
             s
         })
     }
@@ -444,9 +447,9 @@ impl<'a> Elab<'a> {
         }
         let (place, field) = locks[0].clone();
         let kl = self.next_key(&format!("{}.lock", field));
-        let ku = self.next_key(&format!("{}.unlock", field));
         let mut stmts = vec![];
         stmts.extend(self.pt());
+        let ku = self.next_key(&format!("{}.unlock", field));
         stmts.extend(self.ghost_marker("before", &kl));
         stmts.push(parse_quote!(#place.lock_();));
         stmts.extend(self.lockinv_marker("acq", &field));
@@ -729,6 +732,7 @@ impl<'a> Elab<'a> {
         let mut pre: Vec<Stmt> = vec![];
         if !internal {
             // suspension point on an external future: the environment runs
+            self.cur_key = key.clone();
             pre.extend(self.pt());
         }
         pre.extend(self.ghost_marker("before", &key));
@@ -921,6 +925,12 @@ impl<'a> Elab<'a> {
             mc.method = ident(to);
         }
 
+        if (method == "unwrap" || method == "expect") && matches!(&*mc.receiver, Expr::Block(_) | Expr::Match(_) | Expr::If(_)) {
+            let r = (*mc.receiver).clone();
+            mc.receiver = Box::new(parse_quote!(__u));
+            let call = Expr::MethodCall(mc);
+            return parse_quote!({ let __u = #r; #call });
+        }
         // atomic primitive
         let recv_field2 = recv_field.or_else(|| match last_field(&mc.receiver) {
             // guard alias: `X.data` — key by the mutex field
